@@ -26,15 +26,138 @@ def gen_cases(tier, seed):
     n = 330 if tier == "quick" else 6000
     for i in range(n):
         yield {"kind": "mem", "impl": ("sync", "async")[i % 2], "cap": CAPS[(i // 2) % len(CAPS)], "seed": "%d:%d" % (seed, i)}
+    for impl in ("sync", "async"):
+        for b in range(8):
+            yield {"kind": "stuckall", "impl": impl, "block": b, "nblocks": 8, "seed": "%d:sa" % seed}
+    for i in range(80 if tier == "quick" else 1500):
+        yield {"kind": "threads", "impl": "async" if i % 4 == 0 else "sync", "seed": "%d:th%d" % (seed, i)}
     sizes = [(4 * 1024 * 1024, 1024 * 1024), (300000, 65536)] if tier == "quick" else [(4 * 1024 * 1024, 1024 * 1024), (300000, 65536), (6 * 1024 * 1024 + 1, 256 * 1024), (1500000, 4096), (2 * 1024 * 1024, 1024 * 1024), (70000, 8192)]
     for j, (size, md) in enumerate(sizes):
         for impl in ("sync", "async"):
             yield {"kind": "tcp", "impl": impl, "size": size, "maxdata": md, "sndbuf": [4096, 16384][j % 2], "rcvbuf": [4096, 8192][j % 2], "seed": "%d:t%d" % (seed, j)}
     # the reader stalls in the middle of a message for longer than the transport timeout: the call may raise, but whatever
     # the peer has received must be an undamaged prefix -- and if the call returns, everything must be there
-    for j in range(2 if tier == "quick" else 8):
-        yield {"kind": "tcp", "impl": "sync", "size": 1500000, "maxdata": 1024 * 1024, "sndbuf": 8192, "rcvbuf": 4096, "seed": "%d:st%d" % (seed, j),
-               "stall_after": [200000, 1200000][j % 2], "stall_s": 1.0, "transport_timeout_s": 0.3, "read_timeout_s": 6.0}
+    for j in range(4 if tier == "quick" else 16):
+        # (stall 1.0 s: every retry within the stall times out too; stall 0.45 s: the attempt after the first timeout succeeds)
+        # (the async transport waits for a whole message to drain within one transport timeout, so its messages are kept at 128 KiB)
+        yield {"kind": "tcp", "impl": ("sync", "async")[(j // 2) % 2], "size": 1500000, "maxdata": [1024 * 1024, 256 * 1024][(j // 2) % 2], "sndbuf": 8192, "rcvbuf": 4096, "seed": "%d:st%d" % (seed, j),
+               "stall_after": [200000, 1200000][j % 2], "stall_s": [1.0, 1.0, 0.45, 0.45, 0.45, 1.0, 1.0, 0.45][j % 8], "transport_timeout_s": 0.3, "read_timeout_s": 6.0}
+
+
+STUCK_STEPS = [
+    {"op": "shell", "cmd": "a", "decode": False, "chunks": [b"one".hex(), b"two".hex()]},
+    {"op": "push", "path": "/p", "size": 6000, "seed": "c15s", "src": "bytesio", "mode": 0o100644, "mtime": 9, "cb": None},
+    {"op": "stat", "path": "/s", "seed": "c15t", "split": "whole"},
+    {"op": "exec_out", "cmd": "b", "decode": False, "chunks": [b"only".hex()]},
+    {"op": "pull", "path": "/f", "size": 300, "seed": "c15u", "rec": "64k", "split": "whole", "dest": "bytesio", "cb": None},
+]
+
+
+def run_stuckall(case, stats):
+    """the link gets stuck (takes j bytes of a write, then nothing / then raises its timeout) at EVERY write call of a small session in turn:
+    the call in progress must raise -- if every call returned normally, every message must have arrived complete"""
+    from vlib import transports
+    viol = []
+    dims = {"maxdata": 4096, "remote": "small", "id_start": 0, "frag": "whole", "empty_rate": 0.0, "noise": [], "early_close": case["block"] % 2 == 0}
+    sc = {"dims": dims, "steps": [dict(s_) for s_ in STUCK_STEPS]}
+    ref = gen.make_session(case["impl"], dims, "c15stuck")
+    r0 = scen.Runner(ref, sc)
+    try:
+        n0 = ref.core.write_calls
+        r0.run()
+        nwrites = ref.core.write_calls - n0
+        log0 = [pk.key() for (_, pk) in ref.sim.host_log]
+    finally:
+        r0.cleanup()
+        ref.dispose()
+    ev = 0
+    for k in range(nwrites):
+        if k % case["nblocks"] != case["block"]:
+            continue
+        for after in (0, 10):
+            for mode in ("zeros", "timeout"):
+                state = {"n": 0, "stuck": False, "armed": False}
+
+                def cap(call_no, n, r_, state=state, k=k, after=after, mode=mode):
+                    if not state["armed"]:
+                        return n
+                    if state["stuck"]:
+                        if mode == "timeout":
+                            raise transports.TimeoutError_("the link is congested (deliberate)")
+                        return 0
+                    state["n"] += 1
+                    if state["n"] - 1 == k:
+                        state["stuck"] = True
+                        if after == 0 and mode == "timeout":
+                            raise transports.TimeoutError_("the link is congested (deliberate)")
+                        return min(after, n)
+                    return n
+                sess = gen.make_session(case["impl"], dims, "c15stuck", writecap=cap, budget=400000)
+                state["armed"] = True
+                r1 = scen.Runner(sess, sc)
+                try:
+                    res = []
+                    where = "%s: the link takes %d bytes of write call #%d (of %d) and then %s" % (case["impl"], after, k, nwrites, "nothing more" if mode == "zeros" else "raises its timeout error")
+                    for i, step in enumerate(sc["steps"]):
+                        o, v = r1.run_step(i, step)
+                        res.append((step, o, v))
+                        if not o.ok:
+                            break
+                        if sess.sim.parser.pending():
+                            # the call is over and reported success: nothing of what it sent may be left hanging in the middle of a message
+                            viol.append({"mechanism": "truncated-message-behind-normal-return", "detail": "%s: %s returned normally while the peer holds %d bytes of an incomplete message" % (
+                                where, step["op"], sess.sim.parser.pending())})
+                            break
+                    ev += 1
+                    stats["stuck_points"] = stats.get("stuck_points", 0) + 1
+                    all_ok = all(o.ok for (_, o, _) in res) and len(res) == len(sc["steps"])
+                    log1 = [pk.key() for (_, pk) in sess.sim.host_log]
+                    if all_ok:
+                        # (only possible if the write that got stuck was complete with `after` bytes, e.g. a 0-byte tail)
+                        if sess.sim.parser.pending() or log1 != log0:
+                            viol.append({"mechanism": "stuck-write-ignored", "detail": "%s: every call returned normally, but the peer holds %d bytes of an incomplete message and %d of %d messages" % (
+                                where, sess.sim.parser.pending(), len(log1), len(log0))})
+                    elif log1 != log0[:len(log1)]:
+                        viol.append({"mechanism": "messages-differ", "detail": "%s: the complete messages at the peer are not a prefix of the full-write run" % where})
+                    stats["messages_compared"] += len(log1)
+                finally:
+                    r1.cleanup()
+                    sess.dispose()
+                if len(viol) > 2:
+                    break
+    sig = ["stuckall|%s|%d|%d" % (case["impl"], case["block"], i) for i in range(ev)]
+    return sig, viol, {"case": case, "write_calls": nwrites, "points": ev} if case["block"] == 0 else None, ev
+
+
+def run_threads(case, stats):
+    """two or three operations at once over a transport that writes short: each message still has to arrive in one piece"""
+    from checks import c06
+    from vlib import sched
+    rng = gen.rng_for("C15th", case["seed"])
+    steps = []
+    k = 0
+    for a in range(rng.choice([2, 2, 3])):
+        mine = []
+        for _ in range(rng.choice([1, 2])):
+            st_ = rng.choice(c06.POOL)(k)
+            if st_["op"] in ("shell", "exec_out") and rng.random() < 0.5:
+                st_["cmd"] = st_["cmd"] + " " + "z" * rng.choice([300, 3000])      # a long message: many short writes while the others want to send
+            mine.append(st_)
+            k += 1
+        steps.append(mine)
+    cap = rng.choice([1, 7, 24, 100, 1000])
+    strat = sched.RandomWalk(case["seed"], stay=rng.choice([0.2, 0.5, 0.8]), line_prob=0.0) if rng.random() < 0.7 else sched.PCT(case["seed"], len(steps), depth=rng.choice([1, 2, 3]), horizon=300, line_prob=0.0)
+    res = c06.run_schedule(case["impl"], steps, strat, line=False, core_kw={"writecap": cap})
+    viol = []
+    for v in res["viol"]:
+        if v["mechanism"].startswith("monitor:C02") or v["mechanism"] in ("transport-call-without-lock", "transport-not-exclusive") or "two actors inside the transport" in v["detail"]:
+            viol.append({"mechanism": "concurrent-" + v["mechanism"].split(":")[0], "detail": "writes of at most %d bytes: %s" % (cap, v["detail"])})
+    if res.get("framing_error") and not viol:
+        viol.append({"mechanism": "concurrent-framing", "detail": "writes of at most %d bytes: %s" % (cap, res["framing_error"])})
+    stats["concurrent_schedules"] = 1
+    stats["messages_compared"] += res.get("host_packets", 0)
+    sig = "threads|%s|%d|%s" % (case["impl"], cap, hash(res["trace"])) if res["switches"] else None
+    return sig, viol, {"case": case, "cap": cap, "actors": [[s_["op"] for s_ in a] for a in steps], "switches": res["switches"]} if case["seed"].endswith("th3") else None
 
 
 def capfn(name, rng):
@@ -179,10 +302,31 @@ def run_tcp(case, stats):
 
             async def go():
                 tr = TcpTransportAsync("127.0.0.1", peer.port)
-                dev = repo.adb_device_async.AdbDeviceAsync(tr, default_transport_timeout_s=20.0)
+                orig_bw = tr.bulk_write
+
+                async def probe(data, timeout):
+                    n = await orig_bw(data, timeout)
+                    short[1] += 1
+                    if isinstance(n, int) and n < len(data):
+                        short[0] += 1
+                    return n
+                tr.bulk_write = probe
+                orig_connect = tr.connect
+
+                async def connect_small(timeout):
+                    await orig_connect(timeout)
+                    # the kernel's send buffer of the stream's socket is shrunk as for the sync transport (asyncio does not go through socket.create_connection)
+                    w = getattr(tr, "_writer", None)
+                    sock = w.get_extra_info("socket") if w is not None else None
+                    if sock is not None and case.get("sndbuf"):
+                        import socket as _s
+                        sock.setsockopt(_s.SOL_SOCKET, _s.SO_SNDBUF, case["sndbuf"])
+                        stats["sndbuf_applied"] += 1
+                tr.connect = connect_small
+                dev = repo.adb_device_async.AdbDeviceAsync(tr, default_transport_timeout_s=tto)
                 try:
-                    await dev.connect(transport_timeout_s=20.0, read_timeout_s=40.0)
-                    await dev.push(io.BytesIO(content), "/tcp/file", mtime=77, transport_timeout_s=20.0, read_timeout_s=40.0)
+                    await dev.connect(transport_timeout_s=tto, read_timeout_s=rto)
+                    await dev.push(io.BytesIO(content), "/tcp/file", mtime=77, transport_timeout_s=tto, read_timeout_s=rto)
                     return ("ret", None)
                 except Exception as e:  # noqa
                     return ("exc", e)
@@ -231,6 +375,14 @@ def run_case(case):
     stats = {"short_writes": 0, "write_calls": 0, "messages_compared": 0, "tcp_pushes": 0, "tcp_short_sends": 0, "tcp_bytes": 0, "sndbuf_applied": 0, "tcp_inconclusive": 0, "stuck_runs": 0, "stalled_pushes_raised": 0, "stalled_pushes": 0}
     if case["kind"] == "mem":
         sig, viol, sample = run_mem(case, stats)
+    elif case["kind"] == "threads":
+        sig, viol, sample = run_threads(case, stats)
+    elif case["kind"] == "stuckall":
+        sig, viol, sample, ev = run_stuckall(case, stats)
+        seen = {}
+        for v in viol:
+            seen.setdefault(v["mechanism"], v)
+        return {"sig": sig, "violations": list(seen.values()), "stats": stats, "sample": sample, "evaluations": max(1, ev)}
     else:
         for attempt in range(2):
             sig, viol, sample, inc = run_tcp(case, stats)
